@@ -27,30 +27,40 @@ structure HttpResponse where
   json : Bool
   body : Option Json
   log : List Call
+  /-- a handler panic: net/http recovers it and closes the connection without a response -/
+  dropped : Bool := false
   deriving Repr, Inhabited
 
 /-- `HTTP.ServeHTTP`: GET is a liveness probe (200 on "/", 404 elsewhere), every other method but
 POST is 405; POST hands the body to `HandleReader` and writes whatever comes back with status 200
-(`HandleReader` only fails when a response cannot be marshalled, which the model excludes). -/
+(500 with an empty body when `HandleReader` fails because a response cannot be marshalled). -/
 def serveHTTP (cfg : Config) (env : Env) (tbl : Table) (r : HttpRequest) : HttpResponse :=
   match r.method with
   | .get => { status := if r.pathIsRoot then 200 else 404, json := false, body := none, log := [] }
   | .other => { status := 405, json := false, body := none, log := [] }
   | .post =>
-    let o := handleInput cfg env tbl r.body
-    { status := 200, json := true, body := o.body, log := o.log }
+    let o := handleInputF cfg env tbl r.body
+    -- `err != nil`: 500 and nothing is written (resp is nil); a panic drops the connection (`dropped`)
+    { status := if o.goError then 500 else 200, json := true, body := o.body, log := o.log, dropped := o.panicked }
 
 /-- One WebSocket connection: the loop of `Websocket.ServeHTTP` reads one message, hands it to
 `HandleReadWriter` (= `HandleReader` on the message, only its first JSON value counts, the rest of
 the frame is discarded), writes the response if there is one, and only then reads the next
-message. -/
-def wsSession (cfg : Config) (env : Env) (tbl : Table) (msgs : List Input) : List Output :=
-  msgs.map (handleInput cfg env tbl)
+message. When `HandleReader` fails (unmarshallable response) or a handler panics, the loop ends and
+the connection is closed: the remaining messages are never handled. -/
+def wsSession (cfg : Config) (env : Env) (tbl : Table) : List Input → List OutputF
+  | [] => []
+  | m :: rest =>
+    let o := handleInputF cfg env tbl m
+    if o.goError || o.panicked then [o] else o :: wsSession cfg env tbl rest
 
 /-- the messages the server sends on the connection, in order -/
-def wsWire (outs : List Output) : List Json := outs.filterMap (·.body)
+def wsWire (outs : List OutputF) : List Json := outs.filterMap (·.body)
 
 /-- the handler invocations of the connection, in order -/
-def wsLog (outs : List Output) : List Call := outs.flatMap (·.log)
+def wsLog (outs : List OutputF) : List Call := outs.flatMap (·.log)
+
+/-- the server closed the connection -/
+def wsClosed (outs : List OutputF) : Bool := outs.any (fun o => o.goError || o.panicked)
 
 end Juno.C11
